@@ -176,6 +176,18 @@ class _StopConditionBase:
         return stop_any(other, self)
 
 
+def _exp_backoff(multiplier: float, exp_base: float, attempts: int, cap: float) -> float:
+    """``multiplier * exp_base**attempts`` capped at ``cap``.
+
+    A power that leaves the float range counts as infinite, so the result is
+    the cap (as in tenacity) unless the multiplier is zero.
+    """
+    try:
+        return min(multiplier * exp_base**attempts, cap)
+    except OverflowError:
+        return cap if multiplier > 0 else min(multiplier, cap)
+
+
 def _compile_pattern(match: str | re.Pattern[str] | None) -> re.Pattern[str] | None:
     if match is None:
         return None
@@ -486,7 +498,7 @@ class wait_exponential(_WaitStrategyBase):
     def __call__(self, attempts: int, *, seed: int | None = None) -> float:
         return max(
             max(0.0, self.min),
-            min(self.multiplier * self.exp_base**attempts, self.max),
+            _exp_backoff(self.multiplier, self.exp_base, attempts, self.max),
         )
 
 
@@ -566,7 +578,7 @@ class wait_exponential_jitter(_WaitStrategyBase):
         self.jitter = jitter
 
     def __call__(self, attempts: int, *, seed: int | None = None) -> float:
-        base = min(self.initial * self.exp_base**attempts, self.max)
+        base = _exp_backoff(self.initial, self.exp_base, attempts, self.max)
         rng = random.Random(seed) if seed is not None else random
         return min(base + rng.uniform(0, self.jitter), self.max)
 
@@ -600,7 +612,7 @@ class wait_random_exponential(_WaitStrategyBase):
         rng = random.Random(seed) if seed is not None else random
         upper = max(
             max(0.0, self.min),
-            min(self.multiplier * self.exp_base**attempts, self.max),
+            _exp_backoff(self.multiplier, self.exp_base, attempts, self.max),
         )
         return rng.uniform(self.min, upper)
 
